@@ -2,7 +2,7 @@
    Metropolis one, for bonds of unequal maximum weight. *)
 From Coq Require Import List QArith ZArith NArith Bool Arith.
 From QmcV Require Import Model.Prog Model.Sse Model.Diagonal Proofs.ProgLemmas Proofs.DiagonalProofs Proofs.SseWeight
-     Proofs.WorldLine Proofs.Expect Proofs.SweepStationary.
+     Proofs.WorldLine Proofs.Expect Proofs.SweepStationary Proofs.GroupKernel Proofs.TimestepStationary.
 Import ListNotations.
 Open Scope Q_scope.
 
@@ -94,3 +94,12 @@ Example C02_ex_stationary_space :
                              * mass (cfg_eqb y) (denote (update_cfg (hb_update ex_ham (bond_weights ex_ham) (1 # 2)) x))) sp))
         (sse_weight ex_ham (1 # 2) (snd y))) sp = true.
 Proof. vm_compute. reflexivity. Qed.
+
+(* the whole pipeline with the heat-bath diagonal update: same stationary weight *)
+Theorem C02_heatbath_timestep_stationary : forall H beta L nv xs,
+  0 < beta -> tspace_ok H L nv xs ->
+  forall f : cfg -> Q,
+    Qsum (map (fun x => sse_weight H beta (snd x) * expect (pipeline_cfg (update_cfg (hb_update H (bond_weights H) beta)) x) f) xs)
+    == Qsum (map (fun x => sse_weight H beta (snd x) * f x) xs).
+Proof. exact heatbath_timestep_stationary. Qed.
+Print Assumptions C02_heatbath_timestep_stationary.
